@@ -519,25 +519,30 @@ func init() {
 
 func condWaiters(cd *Cell) *Cell { return fieldCell(fieldCell(cd, "notify"), "wait") }
 
-// condLocker returns the mutex cell behind cond.L (nil if L is nil).
+// condLocker returns the mutex cell behind cond.L (nil if L is nil). A Cond's L is written once by
+// NewCond (under the allocating path's guard), so a residual nil alternative from the guarded store
+// is dead whenever a non-nil one exists; all non-nil alternatives must agree.
 func condLocker(cc *CallCtx, cd *Cell) *Cell {
 	lv := pruneRefUnder(fieldCell(cd, "L").Val.(*RefV), cc.c.g)
-	if len(lv.Alts) != 1 {
-		inconclusive("cond.L not unique")
+	var found *Cell
+	for _, a := range lv.Alts {
+		iv, ok := a.R.(*IfaceVal)
+		if !ok {
+			continue
+		}
+		pr := pruneRefUnder(iv.V.(*RefV), cc.c.g)
+		for _, b := range pr.Alts {
+			cell, ok := b.R.(*Cell)
+			if !ok {
+				continue
+			}
+			if found != nil && found != cell {
+				inconclusive("cond.L not unique")
+			}
+			found = cell
+		}
 	}
-	iv, ok := lv.Alts[0].R.(*IfaceVal)
-	if !ok {
-		return nil
-	}
-	pr := pruneRefUnder(iv.V.(*RefV), cc.c.g)
-	if len(pr.Alts) != 1 {
-		inconclusive("cond.L pointer not unique")
-	}
-	cell, ok := pr.Alts[0].R.(*Cell)
-	if !ok {
-		return nil
-	}
-	return cell
+	return found
 }
 
 // modelForMethod maps an interface method call on a modelled dynamic type to a model.
